@@ -122,31 +122,32 @@ def tally(stdouts):
 
 
 def validate(ctx, files, stage, module=TRACE, reset=None):
-    """Validate every per-process trace; returns (mismatches, events, merged path). Independent events are cut into
-    pieces of <= 40k events (keeps each TLC process's JSON small); histories are validated file by file (every file
-    starts with a reset event, and vlib cuts shards at reset events only)."""
+    """Validate the per-process traces as one file; returns (mismatches, events, merged path). The file is cut into
+    pieces of <= ~40k events (keeps each TLC process's JSON small); pieces of stateful traces begin at a reset event
+    (every per-process file starts with one, and vlib cuts its shards at reset events only)."""
     merged = os.path.join(ctx.scratch, stage.split(":")[0] + "-all.ndjson")
-    pieces, n = [], 0
-    with open(merged, "w") as out:
-        for f in files:
-            lines = [x for x in open(f).read().splitlines() if x.strip()]
-            step = len(lines) if reset else 40000
-            for a in range(0, len(lines), max(1, step)):
-                pieces.append((n + a, lines[a:a + step]))
-            out.write("".join(x + "\n" for x in lines))
-            n += len(lines)
-    if n == 0:
+    lines = []
+    for f in files:
+        lines += [x for x in open(f).read().splitlines() if x.strip()]
+    if not lines:
         raise vlib.Infra("%s: the driver recorded nothing" % stage)
+    open(merged, "w").write("".join(x + "\n" for x in lines))
+    cuts, last = [0], 0
+    for i, x in enumerate(lines):
+        if i - last >= 40000 and (not reset or '"ev":"%s"' % reset in x):
+            cuts.append(i)
+            last = i
+    cuts.append(len(lines))
     mism = []
-    for off, lines in pieces:
+    for a, b in zip(cuts, cuts[1:]):
         part = merged + ".part"
-        open(part, "w").write("\n".join(lines) + "\n")
+        open(part, "w").write("\n".join(lines[a:b]) + "\n")
         mm, _ = ctx.validate_events(module, part, shards=16, timeout=3600, heap="4g", stage=stage, reset=reset)
         for m in mm:
-            m["index"] += off
+            m["index"] += a
         mism += mm
-    ctx.stage(stage, events=n, mismatches=len(mism))
-    return mism, n, merged
+    ctx.stage(stage, events=len(lines), mismatches=len(mism))
+    return mism, len(lines), merged
 
 
 # ------------------------------------------------------------------ the check
@@ -173,7 +174,7 @@ def run(ctx):
     ]
     # ---------------------------------------------------------------- (M)
     if not ctx.replay:
-        r = ctx.tlc("MC_PrimitiveSet", "MC_PrimitiveSet_reach", workers=2)
+        r = ctx.tlc("MC_PrimitiveSet", "MC_PrimitiveSet_reach", workers=1)
         if r.invariant != "Reached":
             raise vlib.Infra("MC_PrimitiveSet: no well-formed, class-admitted keyset of full length is reached (vacuous): %s" % r.summary())
         if ctx.thorough:
@@ -233,6 +234,11 @@ def run(ctx):
     colfrac = "1" if ctx.thorough else "0.25"   # quick: a seeded quarter of the collision instances
     files, outs = run_driver(ctx, drv, [["-plan", plan, "-makers", makers_f, "-classes", c, "-colfrac", colfrac] for c in CLASSES], "plan")
     t = tally(outs)
+    for c, o in zip(CLASSES, outs):          # every class must really have been exercised
+        tc = tally([o])
+        if tc.get("sets", 0) == 0 or (c != "PRF" and tc.get("tokens", 0) == 0):
+            raise vlib.Infra("class %s: the driver executed nothing (%s)" % (c, o))
+        ctx.stage("R:driver " + c, **tc)
     ctx.log("driver (plan):", t)
     ctx.stage("R:driver", **t)
     if t.get("tokens", 0) == 0 or t.get("collisions", 0) == 0:
